@@ -15,13 +15,18 @@ ONE = 1.0 - 2.0 ** -24       # largest float32 below 1
 
 
 def _table(n):
-    """first n points (index 0 skipped) of the unscrambled Sobol sequence in _D dims, float64"""
+    """first n points (index 0 skipped) of the fixed-seed scrambled Sobol sequence in _D dims, float64"""
     size = 64
     while size < n + 1:
         size *= 2
     if size not in _TABLES:
-        eng = torch.quasirandom.SobolEngine(_D, scramble=False)
-        _TABLES[size] = eng.draw(size, dtype=torch.float64)[1:]
+        # Owen-scrambled with a FIXED seed: still a deterministic (t,m,s)-net (every elementary dyadic box of
+        # volume 2^-m is hit equally often), but without the poor low-order projections between far-apart
+        # coordinates of the unscrambled sequence (which showed up as artefacts in rejection loops)
+        st = torch.get_rng_state()
+        eng = torch.quasirandom.SobolEngine(_D, scramble=True, seed=20260927)
+        _TABLES[size] = eng.draw(size + 1, dtype=torch.float64)[1:]
+        torch.set_rng_state(st)
     t = _TABLES[size]
     if len(t) < n:
         return _table(2 * size)[:n]
@@ -79,8 +84,11 @@ class Seam:
         if numel == 0:
             return torch.empty(shape, dtype=dtype or torch.float32)
         if mode == "NET":
-            c0 = self.coord.get(rows, 0)
-            self.coord[rows] = c0 + cols
+            # one global coordinate counter: no (index, coordinate) pair of the sequence is ever handed out
+            # twice, so separate draws are mutually equidistributed; consecutive calls with the same row count
+            # are further coordinates of the same points (r and phi of a disc, the 5-D point of a union, ...)
+            c0 = self.coord.get("all", 0)
+            self.coord["all"] = c0 + cols
             u = net(rows, c0, cols)
         elif mode == "ZERO":
             u = torch.zeros(rows, cols, dtype=torch.float64)
